@@ -81,6 +81,35 @@ theorem name_plan_fact :
     compares every file of the multi-file requests with the one-file request for it. -/
 theorem generator_keeps_no_state_fact : Generated.generatorGlobalsWritten = [] := by decide
 
+/-- the value options of the generator (flag.Value implementations; `Set` runs once per `name=value` token, so a
+    repeatable option receives its values one call at a time, in the order of the parameter string): `apiversion` keeps a
+    string (the last value), `specialname` keeps a Go map used as a set (regenerated from the go/ast of
+    `cmd/protoc-gen-fastmarshal`). -/
+theorem value_option_stores_fact :
+    Generated.generatorValueOptionStores =
+      [("apiversion", "protoAPIVersion", "string"), ("specialname", "specialNames", "map[string]struct{}")] := by decide
+
+/-- … and a set filled one insertion at a time answers membership queries by the values it was given, however often
+    and in whichever order they came: the model of `specialNames.Set` / `IsSpecial` (insert into the map / look the key
+    up). The exploration passes two, three and six names in ascending, descending and mixed order and with repetitions
+    (`genpipe.RepeatedShapes`) and requires the generated code to be the same. -/
+def insertAll (store : String → Bool) : List String → String → Bool
+  | [] => store
+  | v :: vs => insertAll (fun n => n == v || store n) vs
+
+theorem insertAll_mem (vs : List String) (store : String → Bool) (n : String) :
+    insertAll store vs n = (vs.contains n || store n) := by
+  induction vs generalizing store with
+  | nil => simp [insertAll]
+  | cons v vs ih =>
+    simp only [insertAll, ih, List.contains_cons]
+    cases h1 : vs.contains n <;> cases h2 : (n == v) <;> simp
+
+theorem special_names_order_free (a b : List String) (h : ∀ n, n ∈ a ↔ n ∈ b) (n : String) :
+    insertAll (fun _ => false) a n = insertAll (fun _ => false) b n := by
+  rw [insertAll_mem, insertAll_mem, Bool.or_false, Bool.or_false, Bool.eq_iff_iff]
+  simp [h n]
+
 /-- routing (see `Bridge/Templates.lean`) -/
 theorem routing_total :
     (∀ k ∈ Bridge.Templates.allKinds, Generated.sizeDispatchKinds.count k = 1) ∧
